@@ -6,7 +6,11 @@
    exact, estimating -- also with zero entries --, ordered or unordered; and, variant V3L, the same
    states written with MORE preamble longs than necessary: one entry with a count field (preLongs 2),
    exact mode with theta = 2^63-1 stored (preLongs 3)) or serVer 4 (every entry_bits width); [expressible v a] says the variant can express the state; [abs_okb a] that it
-   is a theta sketch.  The reader is the REPAIRED code: serVer 2 exact images are no longer decoded
+   is a theta sketch (entries in (0, theta), theta in [1, 2^63-1], ascending when ordered, ...; it does NOT
+   demand distinct entries in an unordered image -- neither the crate's reader nor the C++ one checks that).
+   sh <> 0: the reader's seed must have a non-zero seed hash (otherwise deserialize_with_seed returns Err).
+   The crate has no theta set operations, so that clause of C13 has nothing to apply to.
+   The reader is the REPAIRED code: serVer 2 exact images are no longer decoded
    as empty (D11, /repo d004b42). *)
 From DS Require Import Base.Prelude Base.BitExp Model.Theta Model.ThetaCodec Spec.ThetaLayout.
 From DS Require Import Proofs.ThetaCodec Proofs.ThetaLayoutProofs.
@@ -15,15 +19,15 @@ Open Scope N_scope.
 (* dec_reads_spec: the reader returns exactly the encoded state (entries in image order, theta,
    seed hash, ordering, emptiness): every query and re-serialization then follows from C11/C12 *)
 Theorem c13_theta_reads_every_variant :
-  forall sh v a, abs_okb a = true -> expressible v a = true -> a_seed_hash a = sh ->
+  forall sh v a, sh <> 0 -> abs_okb a = true -> expressible v a = true -> a_seed_hash a = sh ->
   c_deserialize sh (enc_spec v a) = Ok (conc a) /\ abs_of (conc a) = a.
-Proof. exact reads_every_variant. Qed.
+Proof. exact ep_reads_every_variant. Qed.
 
 (* an EMPTY serVer 3 image is accepted whatever its seed hash (as Java/C++ do) *)
 Theorem c13_theta_reads_v3 :
-  forall sh sf a, abs_okb a = true -> (a_empty a = false -> a_seed_hash a = sh) ->
+  forall sh sf a, sh <> 0 -> abs_okb a = true -> (a_empty a = false -> a_seed_hash a = sh) ->
   c_deserialize sh (enc_v3 sf a) = Ok (conc a).
-Proof. exact reads_v3. Qed.
+Proof. exact ep_reads_v3. Qed.
 
 (* the value read can be used: it is well-formed for both writers (so C11 and C12 apply to it) *)
 Theorem c13_theta_read_value_wf :
